@@ -219,9 +219,9 @@ def _pathline(ctx, pydrex, case):
         ctx.case(case, nontrivial=False)
         msg = str(e)
         key, explained = f"pathline_raises/{type(e).__name__}", None
-        if name == "cell":
-            key = "pathline_raises/cell_2d/brentq_sign"
-            explained = isinstance(e, ValueError) and "f(a) and f(b) must have different signs" in msg
+        if isinstance(e, ValueError) and "f(a) and f(b) must have different signs" in msg:
+            # K4: stateful terminal event (mechanism independent of the flow family)
+            key, explained = "pathline_raises/brentq_sign", True
         ctx.check("pathline_returned", False, pt, key=key, explained=explained, exc=f"{type(e).__name__}: {msg[:150]}")
         ctx.count(f"pathline_raised[{name}]")
         return
@@ -277,7 +277,8 @@ def run(ctx):
 def finalize(merged, tier):
     r = []
     c = merged["counters"]
-    tot = merged["classes"].get("pathline/cell", 0)
-    if tot and c.get("pathline_raised[cell]", 0) > 0.5 * tot:
-        r.append("more than half of the cell_2d pathlines raised")
+    for fl in ("cell", "corner", "shear"):
+        tot = merged["classes"].get(f"pathline/{fl}", 0)
+        if tot and c.get(f"pathline_raised[{fl}]", 0) > 0.5 * tot:
+            r.append(f"more than half of the {fl} pathlines raised")
     return r
